@@ -1,8 +1,9 @@
 (* C01 at container level for the family id3f (ID3v2 at file start + ID3v1 at the end; frames opaque):
    the frame bytes handed to save are what the independent strict reader (id3f_load: header, syncsafe size,
-   frame-header walk, zero padding) finds in the saved file -- for every well-formed file, every frame sequence,
-   v2.3 / v2.4, every v1 mode and every padding callback.  id3f_wf includes "payload of at least 131 bytes whose
-   end is not taken for an ID3v1 tag": forced by find_id3v1 (see C01_id3f_short_payload_refuted). *)
+   frame-header walk, zero padding) finds in the saved file -- for every well-formed file (payload of ANY length,
+   the empty file included), every frame sequence, v2.3 / v2.4, every v1 mode and every padding callback.
+   v1_hyp: whenever ID3v1 bytes are (or may be) written they are recognisable behind this payload (128 bytes,
+   b"TAG", at least 3 payload bytes in front, no b"APETAGEX" where the format rule looks). *)
 From Coq Require Import ZArith List Bool Lia.
 Import ListNotations.
 Require Import Base.Py Base.ZList Gen.Gen_tags Model.Splice Model.Id3Util Model.Fam_id3f
@@ -19,7 +20,7 @@ Print Assumptions C01_id3f_roundtrip.
 Theorem C01_id3f_saved_structure : forall f s fr o f',
   id3f_wf f = true -> id3f_parse f = Ok s -> frames_ok (o_v2 o) fr = true -> v1_hyp (i_mid s) o ->
   id3f_save f fr o = Ok f' ->
-  let r := o_cb o (tag_size s - (zlen fr + 10)) (zlen f) in
+  let r := o_cb o (tag_size s - (zlen fr + 10)) (zlen f - tag_size s) in
   0 <= r /\
   id3f_parse f' = Ok (mkI (Some (mkT (o_v2 o) (10 + zlen fr + r) fr r)) (i_mid s) (v1_after (o_v1 o) (o_v1bytes o) (i_v1 s))) /\
   id3f_wf f' = true /\
@@ -27,17 +28,15 @@ Theorem C01_id3f_saved_structure : forall f s fr o f',
 Proof. exact save_wf. Qed.
 Print Assumptions C01_id3f_saved_structure.
 
-(* without the payload precondition the statement is false for the faithful model (genuine defect of /repo):
-   saving to an empty file a frame with b"TAG" 128 bytes before its end, default v1=1, padding 0 *)
-Theorem C01_id3f_short_payload_refuted : exists f fr o f' fr',
-  frames_ok (o_v2 o) fr = true /\ id3f_parse f = Ok (mkI None [] None) /\ v1_hyp [] o /\
-  id3f_save f fr o = Ok f' /\ id3f_load f' = Ok (Some fr') /\ fr' <> fr.
-Proof. exact short_payload_refuted. Qed.
-Print Assumptions C01_id3f_short_payload_refuted.
-Theorem C01_id3f_short_payload_truncates : exists f fr o f',
-  frames_ok (o_v2 o) fr = true /\ id3f_save f fr o = Ok f' /\ zlen f' < 10 + zlen fr /\ id3f_parse f' = Raise EMutagen.
-Proof. exact short_payload_truncates. Qed.
-Print Assumptions C01_id3f_short_payload_truncates.
+(* regression instance (former genuine defect, class tag-in-id3v2): empty file, frame data with b"TAG" 128 bytes
+   before its end, padding 0, v1 = 1 and v1 = 0 *)
+Theorem C01_id3f_short_payload_regression :
+  id3f_wf [] = true /\ frames_ok 4 ex_priv = true /\
+  (exists f', id3f_save [] ex_priv (ex_opts 1 (id3f_cb_const 0)) = Ok f' /\ id3f_load f' = Ok (Some ex_priv) /\ zlen f' = 10 + zlen ex_priv) /\
+  (exists f', id3f_save [] ex_priv (ex_opts 0 (id3f_cb_const 0)) = Ok f' /\ id3f_load f' = Ok (Some ex_priv) /\ zlen f' = 10 + zlen ex_priv) /\
+  (exists f', id3f_save [] ex_priv (ex_opts 0 (id3f_cb_const 0)) = Ok f' /\ id3f_delete f' = Ok []).
+Proof. exact short_payload_regression. Qed.
+Print Assumptions C01_id3f_short_payload_regression.
 
 Example C01_id3f_hypotheses_satisfiable :
   id3f_wf ex_file = true /\ frames_ok 4 ex_frames = true /\ mid_of ex_file = ex_audio /\
